@@ -115,3 +115,21 @@ proof_h! {
         reach!();
     }
 }
+
+//@ tier=off timeout=1800 mem=16 bits=2 unwind=6 unwindset="hashmodel=520;eq32=33;memcmp=34" fns=warp_core::head_inbox::IngressEnvelope::local_intent_with_causal_parents
+//@ bounds="two citations of ONE fixed receipt coordinate whose roles (tick-receipt / contract-inverse-target) are symbolic; kind, bytes and target fixed"
+//@ desc="the constructor canonicalises the cited parents as a set ordered by (role, coordinate): the stored list is strictly ascending and a repeated (role, coordinate) is collapsed, whatever order the caller listed the roles in"
+proof_h! {
+    fn c08_parent_roles_canonicalised() {
+        let r = CausalTickReceiptRef::from_canonical_bytes([0x5a; CAUSAL_TICK_RECEIPT_REF_LEN]);
+        let mk = |tick: bool| if tick { IngressCausalParent::TickReceipt { receipt_ref: r } } else { IngressCausalParent::ContractInverseTarget { receipt_ref: r } };
+        let (r0, r1): (bool, bool) = (kani::any(), kani::any());
+        let t = IngressTarget::DefaultWriter { worldline_id: WorldlineId::from_bytes([1; 32]) };
+        let e = IngressEnvelope::local_intent_with_causal_parents(t, IntentKind::from_hash([0x33; 32]), vec![7u8], vec![mk(r0), mk(r1)]);
+        let c = e.causal_parents();
+        assert!(c.len() == if r0 == r1 { 1 } else { 2 }, "repeated (role, coordinate) not collapsed");
+        assert!(c.len() < 2 || c[0] < c[1], "stored parent list is not strictly ascending by (role, coordinate)");
+        core::mem::forget(e);
+        reach!();
+    }
+}
